@@ -22,7 +22,7 @@ class C16:
             "equal, original's dump unchanged; non-trivial = code object with non-empty line table (and, 3.11+, "
             "non-empty exception table somewhere in the program); distinct = (host, program)")
     assumptions = ["attribute-by-attribute equality is used because code.__eq__ ignores line tables on some versions"]
-    budgets = {"quick": {"shards": 12, "examples": 45, "seconds": 70},
+    budgets = {"quick": {"shards": 12, "examples": 160, "seconds": 70},
                "thorough": {"shards": 16, "examples": 2000, "seconds": 900}}
 
     def strategy(self, ctx):
